@@ -331,6 +331,11 @@ func registerIntrinsics(e *Engine) {
 	I["math.Float32frombits"] = ident
 	I["math.Float64bits"] = ident
 	I["math.Float64frombits"] = ident
+	// contract stub: "SetFloat64 panics with ErrNaN if x is a NaN"; the value itself is not modelled
+	I["(*math/big.Float).SetFloat64"] = func(x *Exec, caller *frame, fn *ssa.Function, args []Value) Value {
+		x.mustHold(x.ctx.Not(x.fpIsNaN(args[1].(*Term))), "Float.SetFloat64(NaN)")
+		return args[0]
+	}
 	I["math.IsNaN"] = func(x *Exec, caller *frame, fn *ssa.Function, args []Value) Value {
 		return x.fpIsNaN(args[0].(*Term))
 	}
